@@ -242,7 +242,7 @@ def expressible_uri(rec):
         return None, 'argument longer than %d code points (TLC capacity)' % TEXT_MAX
     e = {'fn': fn, 's': cps(s), 'plus': False, 'out': [], 'out2': [], 'port': -1, 'err': False, 'alt': []}
     if fn == 'decode':
-        if a['unquote_plus'] not in (True, False):
+        if not isinstance(a['unquote_plus'], bool):
             return None, 'unquote_plus is not a bool'
         e['plus'] = a['unquote_plus']
     if 'exc' in rec:
@@ -316,7 +316,7 @@ def expressible_query(rec):
             return None, 'lone surrogate in the query string'
         if len(q) > TEXT_MAX:
             return None, 'query string longer than %d code points (TLC capacity)' % TEXT_MAX
-        if a['keep_blank'] not in (True, False) or a['csv'] not in (True, False):
+        if not isinstance(a['keep_blank'], bool) or not isinstance(a['csv'], bool):
             return None, 'option is not a bool'
         e = _qev('parse')
         e.update(q=cps(q), kb=a['keep_blank'], csv=a['csv'])
@@ -341,7 +341,7 @@ def expressible_query(rec):
     a = bind(rec, ['params', 'comma_delimited_lists', 'prefix'], {'comma_delimited_lists': True, 'prefix': True})
     if a is None:
         return None, 'arguments do not fit the signature'
-    if a['comma_delimited_lists'] not in (True, False) or a['prefix'] not in (True, False):
+    if not isinstance(a['comma_delimited_lists'], bool) or not isinstance(a['prefix'], bool):
         return None, 'option is not a bool'
     p = a['params']
     if p is None:
@@ -781,9 +781,15 @@ def describe_fn(rec):
     return out + ' -> ' + short(rec.get('res'))
 
 
-def describe_hist(h, idx):
-    e = h['ev'][idx - 1] if 0 < idx <= len(h['ev']) else {}
-    return '%s %s, event %d of %d: %s' % (h['cls'], json.dumps(h['ctor'])[:160], idx, len(h['ev']), json.dumps(e)[:300])
+def describe_hist(h, idx, judged):
+    """the failing event as the judge saw it (bytes shown as text)"""
+    evs = judged.get('ev', []) if isinstance(judged, dict) else []
+    e = dict(evs[idx - 1]) if 0 < idx <= len(evs) else {}
+    for k in ('res', 'd'):
+        if isinstance(e.get(k), list):
+            e[k] = bytes(e[k][:80]).decode('latin-1')
+    e.pop('lines', None)
+    return '%s %s, event %d of %d: %s' % (h['cls'], json.dumps(h['ctor'])[:160], idx, len(evs), json.dumps(e)[:300])
 
 
 H_REASONS = {
@@ -804,7 +810,7 @@ def settle(ctx, fam, items, verdicts, describe):
             fam.skip(H_REASONS.get(clause, 'judge: outside its input domain (%s)' % clause))
             if os.environ.get('G03_DUMP'):
                 with open(os.environ['G03_DUMP'], 'a') as f:
-                    f.write(json.dumps({'family': fam.key, 'verdict': v, 'tests': nodes[:3], 'what': describe(rec, int(at) if at else 0)}) + '\n')
+                    f.write(json.dumps({'family': fam.key, 'verdict': v, 'tests': nodes[:3], 'what': describe(rec, int(at) if at else 0, judged_input)}) + '\n')
             continue
         fam.judged += 1
         ctx.case({'family': fam.key, 'tests': nodes[:2], 'verdict': v}, nontrivial=True, key=(fam.key, digest(judged_input)))
@@ -814,7 +820,7 @@ def settle(ctx, fam, items, verdicts, describe):
         tests = sorted(set(nodes))
         case = {'family': fam.key, 'tests': tests[:6], 'record': rec if len(json.dumps(rec)) < 20000 else '(large)',
                 'judged': judged_input if len(json.dumps(judged_input)) < 20000 else '(large)'}
-        what = '%s: %s; first seen in %s' % (fam.title, describe(rec, int(at) if at else 0), nodes[0])
+        what = '%s: %s; first seen in %s' % (fam.title, describe(rec, int(at) if at else 0, judged_input), nodes[0])
         if clause.startswith('D:'):
             fam.details[clause] += 1
             ctx.detail('%s:%s' % (fam.key, clause), case, what)
@@ -920,7 +926,7 @@ def _run(ctx, outdir):
         f = fam[key]
         items = list(f.items.values())
         verdicts = judge_events(ctx, module, [x for x, _, _ in items], per, env=env)
-        settle(ctx, f, items, verdicts, lambda rec, at: describe_fn(rec))
+        settle(ctx, f, items, verdicts, lambda rec, at, x: describe_fn(rec))
         ctx.progress('family %s: %d distinct events judged by %s' % (key, len(items), module))
     for key, module in (('C', 'CursorTrace'), ('B', 'BodyStreamTrace')):
         f = fam[key]
@@ -1019,13 +1025,75 @@ def selftest(ctx, fam):
     ctx.progress('self-test: %d falsified observations rejected by the clauses that speak about them' % len(cases))
 
 
+class NotReexecutable(Exception):
+    pass
+
+
+def dec(x):
+    """typed copy -> the value (function arguments only)"""
+    if x is None or isinstance(x, (bool, int, str)):
+        return x
+    if isinstance(x, list):
+        return [dec(y) for y in x]
+    if isinstance(x, dict):
+        if 'o' in x:
+            raise NotReexecutable(x['o'])
+        if 'b' in x:
+            return x['b'].encode('latin-1')
+        if 't' in x:
+            return tuple(dec(y) for y in x['t'])
+        if 's' in x:
+            return [dec(y) for y in x['s']]
+        if 'f' in x:
+            return float(x['f'])
+        if 'd' in x:
+            return {dec(k): dec(v) for k, v in x['d']}
+    raise NotReexecutable(repr(x)[:60])
+
+
+def reexecute(rec):
+    """the recorded call made again on the current tree -> a record as the recorder would write it"""
+    from engine import suite_recorder_fn as R
+    import falcon.util.mediatypes
+    import falcon.util.misc
+    import falcon.util.uri
+    name = rec['fn']
+    mod = falcon.util.misc if name == 'to_query_str' else falcon.util.mediatypes if name in ('quality', 'best_match') \
+        else falcon.util.uri
+    f = getattr(mod, name)
+    f = getattr(f, '_suite_recorder_original', f)
+    a, k = [dec(x) for x in rec.get('args', [])], {n: dec(v) for n, v in rec.get('kw', {}).items()}
+    new = {'kind': 'fn', 'fn': name, 'args': rec.get('args', []), 'kw': rec.get('kw', {}), 'node': 'replay'}
+    try:
+        res = f(*a, **k)
+    except Exception as ex:
+        new['exc'] = R._exc(ex)
+        return new
+    new['res'] = R.enc(res)
+    R._URI_FUNCS.get(name, R._probe_none)(f, a, k, res, new)
+    return new
+
+
 def replay(ctx, case):
-    """Judges the recorded observation of the replay file again (the call itself is in case['record'])."""
+    """A recorded function call is made again on the current tree and judged; a reader / stream history is judged again
+    as it was recorded (its source is not available any more)."""
     fam_key = case['family']
     module = {'U': 'UriTrace', 'Q': 'QueryStringTrace', 'M': 'MediaTypesTrace', 'C': 'CursorTrace', 'B': 'BodyStreamTrace'}[fam_key]
     x = case['judged']
+    rec = case.get('record')
     print('tests:', case.get('tests'))
-    print('record:', json.dumps(case.get('record'), default=repr)[:2000])
+    print('record:', json.dumps(rec, default=repr)[:2000])
+    if fam_key in 'UQM' and isinstance(rec, dict):
+        try:
+            now = reexecute(rec)
+            print('now:   ', describe_fn(now))
+            x2, why = {'U': expressible_uri, 'Q': expressible_query, 'M': expressible_media}[fam_key](now)
+            if x2 is None:
+                print('the call as made now is outside the judge\'s domain: %s' % why)
+                return
+            x = x2
+        except NotReexecutable as ex:
+            print('the call cannot be made again (argument %s); judging the recorded observation' % ex)
     if x == '(large)':
         print('the judged input was too large to be stored in the replay file')
         return
@@ -1034,4 +1102,4 @@ def replay(ctx, case):
     print('verdict:', v)
     clause = v.split('@')[0]
     if clause != 'ok' and clause.startswith('P:'):
-        ctx.violation('%s:%s' % (fam_key, clause), case, 'recorded observation rejected again: %s' % v)
+        ctx.violation('%s:%s' % (fam_key, clause), case, 'rejected again: %s' % v)
